@@ -25,6 +25,10 @@ PROP = dict(
         "surrogates / out-of-range code points inside a String are the class KF-string-nonscalar-print",
         "values are built from arr.ai source (Rep.src); closures and non-canonical representations left by other defects "
         "(C01/C02: holes at the ends of arrays/strings, superimposed indices) are outside the generator",
+        "relations are generated both as literals (physical columns sorted) and, for 3-5 identifier columns with a key column, as "
+        "chains of <&> over 1- and 2-column literals in varying piece order and association, optionally followed by `where`, `with` "
+        "or `|` (physical columns permuted): top level, nested in tuples/arrays/dicts/sets/relation cells, 1-4 rows, cells pairwise "
+        "different; single-row ones also with the exact printed text predicted (op `repr`)",
         "random values: depth <= 4, <= 5 members per container; exhaustive tier: all strings of length <= 2 over a 40-character alphabet "
         "as string values, attribute names, printed text and bundle-config fields",
         "bundle config: bundleConfig is unexported, so op `bundlecfg` formats the two fields with the same format string "
@@ -35,7 +39,10 @@ PROP = dict(
                "attribute names (bare or quoted), integers under the 15-character guard, offsets and Go %q texts (bundle config) read back "
                "as themselves; on top of these leaves, printing (Format of every type, as a token tree) followed by a reader of the printed "
                "sub-language is the identity on meanings for every printable representation (partial: strings with holes, multi-valued dict "
-               "keys and non-scalar code points are open findings with machine-checked witnesses). The tree-level reader is tied to the real "
+               "keys, non-scalar code points, an attribute named `*` and an attribute together with its `&` counterpart are open findings with "
+               "machine-checked witnesses). Relation.Format's projection of a row stored in any physical column order to the sorted heading "
+               "is modelled and proved to hand every attribute its own value (the representation itself is tied by join-built values in "
+               "the correspondence run). The tree-level reader is tied to the real "
                "parser only by the correspondence run (print -> re-evaluate on generated values, every run).",
     design_ref="DESIGN.md section 6, C12",
     env={"HARNESS_TIMEOUT_MS": "60000"},
